@@ -6,7 +6,7 @@ TRUSTED_BASE = [
     'Coq 8.16.1 kernel (coqc); vm_compute used in reflective proofs; no native_compute',
     'no axioms declared; Print Assumptions output per theorem quoted under coverage.print_assumptions',
     'extraction: ExtrOcamlBasic only (Extract Inductive for bool, option, unit, prod, list, sumbool, sumor); no Extract Constant; OCaml 4.13.1; driver.ml',
-    'tools/translate.py (reflection of the live pyparsing graph and class data into coq/gen); tools/translate_fns.py (ast translation of 12 pure text helpers / small renderers into coq/gen/GenFns.v, proved equal to the hand-written model in proofs/GenFnTie.v)',
+    'tools/translate.py (reflection of the live pyparsing graph and class data into coq/gen); tools/translate_fns.py (ast translation of 16 pure text helpers / small renderers into coq/gen/GenFns.v, proved equal to the hand-written model in proofs/GenFnTie.v)',
     'hand-written model (coq/model, coq/pp) tied to /repo by differential execution only (streams listed under coverage.streams)',
     'CPython 3.12 str/re/textwrap behaviour as described in coq/lib/PyStr.v, tied by stream text',
     'python harness (tools/*.py): generators, canonical serialiser, differ, oracles',
